@@ -33,20 +33,26 @@ type Set[K comparable] struct {
 }
 
 func (z *Set[K]) Add(elements ...K) {
+	z.mu.Lock()
+	defer z.mu.Unlock()
 	for _, element := range elements {
-		z.AddB(0, element)
+		z.addB(0, element)
 	}
 }
 
 func (z *Set[K]) Remove(elements ...K) {
+	z.mu.Lock()
+	defer z.mu.Unlock()
 	for _, element := range elements {
-		z.RemoveB(element)
+		z.removeB(element)
 	}
 }
 
 func (z *Set[K]) Contains(elements ...K) bool {
+	z.mu.RLock()
+	defer z.mu.RUnlock()
 	for _, element := range elements {
-		if !z.ContainsB(element) {
+		if _, ok := z.dict[element]; !ok {
 			return false
 		}
 	}
@@ -153,7 +159,11 @@ func (z *Set[K]) Len() int {
 func (z *Set[K]) AddB(score float64, value K) bool {
 	z.mu.Lock()
 	defer z.mu.Unlock()
+	return z.addB(score, value)
+}
 
+// addB is AddB without locking; the caller holds z.mu.
+func (z *Set[K]) addB(score float64, value K) bool {
 	oldScore, ok := z.dict[value]
 	if ok {
 		// Update score if need.
@@ -178,7 +188,11 @@ func (z *Set[K]) AddB(score float64, value K) bool {
 func (z *Set[K]) RemoveB(value K) (float64, bool) {
 	z.mu.Lock()
 	defer z.mu.Unlock()
+	return z.removeB(value)
+}
 
+// removeB is RemoveB without locking; the caller holds z.mu.
+func (z *Set[K]) removeB(value K) (float64, bool) {
 	score, ok := z.dict[value]
 	if !ok {
 		return 0, false
